@@ -73,7 +73,7 @@ class Server:
         P = self.P
         for g in self.table.bodies(m):
             for bb, t in g.calls():
-                if callee_is(t, 'HashMap::remove', 'HashMap::remove_entry', 'HashMap::entry'):
+                if callee_is(t, 'HashMap::remove', 'HashMap::remove_entry', 'HashMap::entry', 'HashMap::contains_key', 'HashMap::insert', 'HashMap::get', 'HashMap::get_mut'):
                     for r, p in P.root(P.operand(g, t['args'][1], at=bb), through_params=self.table.is_helper, callers={b.id for b in self.table.bodies(m)}):
                         if r[0] == 'param' and r[1] == m.id:
                             return r[2]
